@@ -9,7 +9,8 @@ EXPLANATION = (
     "line-normalisation step of read_dimacs_from_file preserves the whole content of the line and removes only a "
     "trailing newline (K24); the branch for 'e'/'a' lines - sscanf through its contract for this format (only converted fields are written), the "
     "vertex map holding the keys 1..n - raises the error exactly when an endpoint is not a declared 1-based id and otherwise appends exactly "
-    "one edge joining the named vertices with the given weight, 1 when the weight field is missing (K24b, loop-free, every int endpoint); has_loops and has_non_positive_weights, extracted with the Boost.Graph edge range bound to "
+    "one edge joining the named vertices with the given weight, 1 when the weight field is missing (K24b, loop-free, every int endpoint); the 'p' line "
+    "creates as many vertices as it declares and the map with exactly the keys 1..n (K24c, n<=6); has_loops and has_non_positive_weights, extracted with the Boost.Graph edge range bound to "
     "edge ordinals, return true exactly when some edge is a self-loop / has weight <= 0 (loop contracts with a ghost "
     "edge, unbounded in the number of edges); has_multiple_edges answers true exactly when some vertex lists the same opposite endpoint at two "
     "out-edge slots (loop contracts with invariants quantified over the bounded vertex / slot range, n<=5; std::set bound to a boolean table).  BOUNDED stand-in for the rest (K25): the real reader is run through fmemopen on "
